@@ -374,7 +374,8 @@ def query_correlated(q, cutoff=0):
 
 def lateral_nested_correlation(q):
     """structural class: some LATERAL subquery S contains a nested query (a subquery expression or a further
-    LATERAL) that references a column from outside S (the lateral's left row or beyond)"""
+    LATERAL) that references a column from outside S (the lateral's left row or beyond), or S is correlated
+    and contains a correlated nested query"""
     found = False
 
     def walk_any(x, c, nested):
@@ -441,11 +442,35 @@ def lateral_nested_correlation(q):
             if f[4] != "-":
                 walk_any(f[4], c + 1, nested)
 
+    def nested_queries(x, top=True):
+        """the query nodes nested inside query x (subquery expressions and further laterals)"""
+        out = []
+        if isinstance(x, list) and x:
+            h = x[0]
+            if h == "exists":
+                out.append(x[2])
+            elif h == "insub":
+                out.append(x[3])
+            elif h == "quant":
+                out.append(x[4])
+            elif h == "scalar":
+                out.append(x[1])
+            elif h == "lateral" and len(x) >= 6:
+                out.append(x[3])
+            for y in x:
+                out += nested_queries(y, False)
+        return out
+
     def scan(x):
         """find every lateral node anywhere and test its subquery"""
+        nonlocal found
         if isinstance(x, list) and x:
             if x[0] == "lateral" and len(x) >= 6:
                 walk_q(x[3], 0, False)
+                # second shape: the lateral subquery is correlated itself and contains a correlated nested query
+                # (whatever that one refers to)
+                if query_correlated(x[3]) and any(query_correlated(n) for n in nested_queries(x[3])):
+                    found = True
             for y in x:
                 scan(y)
     scan(q)
